@@ -63,12 +63,12 @@ Section P.
   Notation run := (run C cv cap).
   Notation label := (label C).
 
-  Lemma publish_nonblocking : forall (st : state) m,
+  Lemma publish_nonblocking : forall (st : state) m, closed C st = false ->
     exists st', step st (LPublish m) = Some st'
       /\ tasks C st' = tasks C st /\ actors C st' = actors C st
       /\ order C st' = order C st /\ handles C st' = handles C st /\ rxcnt C st' = rxcnt C st.
   Proof.
-    intros st m. unfold V1.step. destruct (Nat.eqb (rxcnt C st) 0).
+    intros st m Hc. unfold V1.step. rewrite Hc. destruct (Nat.eqb (rxcnt C st) 0).
     - exists st. repeat split; reflexivity.
     - eexists. split; [reflexivity|]. cbn. repeat split; reflexivity.
   Qed.
@@ -223,12 +223,14 @@ Section P.
   Proof.
     intros st st' l I H. destruct l; cbn in H.
     - (* LPublish *)
+      destruct (closed C st); [discriminate|].
       destruct (Nat.eqb (rxcnt C st) 0); inversion H; subst; clear H; [assumption|].
       destruct I as [Il Ir Ic It In_ Io Io2 Ind]. constructor; cbn; auto.
       + rewrite app_length. cbn. lia.
       + unfold push. rewrite Ir. apply lastn_push.
       + intros s sb E. specialize (Ic s sb E). lia.
     - (* LSubscribe *)
+      destruct (closed C st); [discriminate|].
       destruct (tasks C st s) eqn:E; [discriminate|]. inversion H; subst; clear H.
       destruct I as [Il Ir Ic It In_ Io Io2 Ind].
       assert (Hfresh : ~ In s (order C st)) by (intros Hin; exact (Io2 s Hin E)).
@@ -304,6 +306,29 @@ Section P.
       destruct (a_alive (actors C st a) && negb (a_started (actors C st a)))%bool; [|discriminate].
       inversion H; subst; clear H.
       apply vinv_set_actor_sub; [assumption|]. intros it Hin. assumption.
+    - (* LClose *)
+      destruct (closed C st); [discriminate|]. inversion H; subst; clear H.
+      destruct I as [Il Ir Ic It In_ Io Io2 Ind]. constructor; cbn; auto.
+    - (* LEnd *)
+      destruct (tasks C st s) as [sb|] eqn:E; [|discriminate].
+      destruct (s_pc C sb) eqn:P; try discriminate.
+      destruct (closed C st && Nat.eqb (tail C st - s_cursor C sb) 0)%bool; [|discriminate].
+      inversion H; subst; clear H.
+      destruct I as [Il Ir Ic It In_ Io Io2 Ind]. constructor; cbn; auto.
+      + intros x sbx Ex. unfold updf in Ex. destruct (N.eqb x s); [inversion Ex; subst; cbn; eauto|eauto].
+      + intros a' x r' Hin. destruct (It a' x r' Hin) as (sbx & Ex & Ax).
+        unfold updf. destruct (N.eqb x s) eqn:Exs.
+        * apply N.eqb_eq in Exs. subst x. rewrite E in Ex. inversion Ex; subst.
+          eexists. split; [reflexivity|reflexivity].
+        * exists sbx. split; assumption.
+      + rewrite In_.
+        rewrite <- (count_dead (tasks C st) s (mkSub C (s_actor C sb) (s_conv C sb) (s_cursor C sb) PDone) (order C st)); auto.
+        * eauto.
+        * unfold live. rewrite E, P. reflexivity.
+        * unfold live. rewrite updf_same. reflexivity.
+      + intros x sbx Ex. unfold updf in Ex. destruct (N.eqb x s) eqn:Exs; [|eauto].
+        apply N.eqb_eq in Exs. subst x. eauto.
+      + intros x Hin. unfold updf. destruct (N.eqb x s); [discriminate|auto].
   Qed.
 
   (* ---------- refinement: every subscription, seen alone, runs Sub1 ---------- *)
@@ -325,8 +350,9 @@ Section P.
     VInv st -> okfor s a c st (l :: t) -> step st l = Some st' ->
     crun1 (cv c) (absv C s a st) (proj C s a l) = Some (absv C s a st') /\ okfor s a c st' t.
   Proof.
-    intros s a c st st' l t I Ok H. destruct l as [m|s' a' c'|s'|s'|a' s'|a'|a']; cbn in H.
+    intros s a c st st' l t I Ok H. destruct l as [m|s' a' c'|s'|s'|a' s'|a'|a'| |s']; cbn in H.
     - (* LPublish *)
+      destruct (closed C st) eqn:Cl; [discriminate|].
       cbn [proj]. destruct (Nat.eqb (rxcnt C st) 0) eqn:R; inversion H; subst; clear H.
       + split; [|exact Ok]. apply Nat.eqb_eq in R. cbn. unfold absv.
         destruct (tasks C st' s) as [sb|] eqn:E; [|reflexivity].
@@ -337,6 +363,7 @@ Section P.
         pose proof (v_cur _ I _ _ E) as Hc. rewrite <- (v_len _ I) in Hc.
         destruct (s_pc C sb) eqn:P; cbn; try reflexivity; rewrite skipn_app_le by exact Hc; reflexivity.
     - (* LSubscribe *)
+      destruct (closed C st) eqn:Cl; [discriminate|].
       destruct (tasks C st s') eqn:E; [discriminate|]. inversion H; subst; clear H.
       cbn [proj]. destruct (N.eqb s' s) eqn:Es.
       + apply N.eqb_eq in Es. subst s'. unfold okfor in Ok. rewrite E in Ok. cbn in Ok. rewrite N.eqb_refl in Ok.
@@ -466,6 +493,23 @@ Section P.
       split; [|unfold okfor in *; cbn; exact Ok].
       cbn. f_equal. unfold absv. cbn. unfold updf. destruct (N.eqb a a') eqn:Ea; [|reflexivity].
       apply N.eqb_eq in Ea. subst a'. cbn. rewrite Al. reflexivity.
+    - (* LClose: nothing a subscription sees changes *)
+      destruct (closed C st); [discriminate|]. inversion H; subst; clear H.
+      split; [|unfold okfor in *; cbn; exact Ok]. cbn. f_equal.
+    - (* LEnd: recv reports Closed, only with an empty backlog *)
+      destruct (tasks C st s') as [sb|] eqn:E; [|discriminate].
+      destruct (s_pc C sb) eqn:P; try discriminate.
+      destruct (closed C st); [|discriminate]. cbn [andb] in H.
+      destruct (Nat.eqb (tail C st - s_cursor C sb) 0) eqn:B; [|discriminate]. apply Nat.eqb_eq in B.
+      inversion H; subst; clear H.
+      cbn [proj]. destruct (N.eqb s' s) eqn:Es.
+      + apply N.eqb_eq in Es. subst s'. split.
+        * cbn. unfold absv. rewrite E, P. cbn. rewrite updf_same. cbn. reflexivity.
+        * unfold okfor in *. cbn. rewrite updf_same. rewrite E in Ok. cbn. exact Ok.
+      + assert (Hne : N.eqb s s' = false) by (apply N.eqb_neq; apply N.eqb_neq in Es; congruence).
+        split.
+        * cbn. f_equal. unfold absv. cbn. rewrite (updf_other _ _ _ _ _ Hne). reflexivity.
+        * unfold okfor in *. cbn. rewrite (updf_other _ _ _ _ _ Hne). exact Ok.
   Qed.
 
   Lemma sim_run_gen : forall s a c ls suffix (st st' : state),
@@ -514,6 +558,8 @@ Section P.
     - destruct (N.eqb s0 s); cbn; exact IH.
     - destruct (N.eqb a0 a); cbn; exact IH.
     - cbn. exact IH.
+    - cbn. exact IH.
+    - destruct (N.eqb s0 s); cbn; exact IH.
   Qed.
 
   Lemma apubs_projs : forall s a ls, apubs (projs C s a ls) = pubs_after C s ls.
@@ -527,6 +573,8 @@ Section P.
     - destruct (N.eqb s0 s); cbn; exact IH.
     - destruct (N.eqb a0 a); cbn; exact IH.
     - cbn. exact IH.
+    - cbn. exact IH.
+    - destruct (N.eqb s0 s); cbn; exact IH.
   Qed.
 
   Lemma conv_of_task : forall ls (st st' : state) s a c, VInv st -> okfor s a c st ls ->
@@ -599,6 +647,7 @@ Section P.
     - destruct (N.eqb s0 s); eauto.
     - destruct (N.eqb s0 s); eauto.
     - destruct (N.eqb a0 a); eauto.
+    - destruct (N.eqb s0 s); eauto.
   Qed.
 
   Lemma always_sim : forall s a c ls suffix (st st' : state),
@@ -664,5 +713,43 @@ Section P.
     rewrite absv_init in S1.
     eapply (sub1_after_lag (Some cap) (cv c) cap); try eassumption; [reflexivity|].
     eapply always_sim; eassumption.
+  Qed.
+
+  (* ---------- dropping the port ---------- *)
+  (* the forwarder can see Closed only when it has taken everything that was buffered *)
+  Lemma end_needs_drained : forall (st st' : state) s, step st (LEnd s) = Some st' ->
+    closed C st = true /\ behind C st s = 0.
+  Proof.
+    intros st st' s H. cbn in H. unfold behind.
+    destruct (tasks C st s) as [sb|]; [|discriminate].
+    destruct (s_pc C sb); try discriminate.
+    destruct (closed C st); [|discriminate]. cbn [andb] in H.
+    destruct (Nat.eqb (tail C st - s_cursor C sb) 0) eqn:B; [|discriminate].
+    apply Nat.eqb_eq in B. split; [reflexivity|exact B].
+  Qed.
+
+  (* publisher publishes and drops the port: a subscriber that kept up (never more than cap
+     behind) has been forwarded EVERYTHING published after its subscription by the time its
+     forwarding task ends because of the drop *)
+  Theorem v1_drop_drains : forall ls st st' s a c, run (init C) ls = Some st ->
+    conv_of C s ls = Some (a, c) -> never_behind C cv cap (init C) s ls ->
+    step st (LEnd s) = Some st' -> a_alive (actors C st a) = true ->
+    let x := absv C s a st' in
+    c_pc x = ADone /\ c_got x ++ c_mbox x = filter_map (cv c) (pubs_after C s ls).
+  Proof.
+    intros ls st st' s a c H Hc Nb HE Al x. subst x.
+    destruct (v1_lag_bound ls st s a c H Hc Nb) as [_ Ex].
+    pose proof (okfor_init s a c ls Hc) as Ok. rewrite <- (app_nil_r ls) in Ok.
+    destruct (sim_run_gen s a c ls [] _ _ vinv_init Ok H) as (_ & I & _).
+    cbn in HE. destruct (tasks C st s) as [sb|] eqn:E; [|discriminate].
+    destruct (s_pc C sb) eqn:P; try discriminate.
+    destruct (closed C st); [|discriminate]. cbn [andb] in HE.
+    destruct (Nat.eqb (tail C st - s_cursor C sb) 0) eqn:B; [|discriminate].
+    apply Nat.eqb_eq in B. inversion HE; subst; clear HE.
+    pose proof (v_cur _ I _ _ E) as Hcur. pose proof (v_len _ I) as Hl.
+    assert (Hb : skipn (s_cursor C sb) (log C st) = []) by (apply skipn_all2; lia).
+    unfold absv in *. cbn [tasks actors log]. rewrite updf_same. rewrite E, P in Ex. cbn in Ex |- *.
+    rewrite Hb in Ex. cbn in Ex. rewrite app_nil_r in Ex.
+    split; [reflexivity|]. apply Ex; [reflexivity|exact Al].
   Qed.
 End P.
